@@ -213,7 +213,8 @@ def execute(case):
     faults = {"deadline": 0, "stall": 0}
     probes = {"expired_in_enumeration": 0, "expired_in_initial_stack": 0,
               "expired_in_production_loop": 0, "stream_cut_short": 0,
-              "empty_prefix": 0, "result_without_resolution": 0}
+              "empty_prefix": 0, "result_without_resolution": 0,
+              "input_raises_without_deadline": 0}
     obs = []
     deltas = case.get("deltas")
     n_eval = 0
@@ -225,14 +226,19 @@ def execute(case):
     S_inf, log_inf, exc, clock_inf = _run(lib, case, BIG, "gen", deltas)
     n_eval += 1
     if exc:
-        viol("C13.raises", "no-deadline:" + exc.split(":")[0], "text=%r: %s" % (case["text"], exc))
-        return {"viol": V, "digest": core.digest([case, exc]), "n_eval": n_eval, "keys": keys}
+        # the input crashes the parser without any deadline: totality is C01's business
+        # (env-sim); the timeout mechanism cannot be judged on it
+        probes["input_raises_without_deadline"] = 1
+        return {"viol": V, "digest": core.digest([case["text"], exc]), "n_eval": n_eval,
+                "keys": keys, "probes": probes, "faults": faults}
     R = clock_inf.n
     vals = clock_inf.values
     S0, log0, exc0, _ = _run(lib, case, 0, "gen", deltas)
     n_eval += 1
     if exc0:
-        viol("C13.raises", "timeout0:" + exc0.split(":")[0], "text=%r: %s" % (case["text"], exc0))
+        viol("C13.raises", "timeout0:" + exc0.split(":")[0],
+             "text=%r: raises with timeout=0 but not with a huge timeout: %s"
+             % (case["text"], exc0))
     elif S0 != S_inf:
         viol("C13.timeout0-no-limit", "stream-differs",
              "text=%r: timeout=0 gave %d candidates, no-deadline run %d"
@@ -367,7 +373,7 @@ def execute(case):
 
 def _learn_R(lib, case):
     _, _, exc, clock = _run(lib, case, BIG, "gen", case.get("deltas"))
-    return clock.n
+    return None if exc else clock.n
 
 
 def plan(prop, tier, seed):
@@ -412,6 +418,9 @@ def plan(prop, tier, seed):
         if rng.random() < 0.25:
             base["deltas"] = [rng.choice([0.25, 1.0, 3.0, 0.001]) for _ in range(7)]
         R = _learn_R(lib, base)
+        if R is None:
+            cases.append(dict(base, expiries=[], stalls=[]))
+            continue
         if R <= full_cap:
             ks = list(range(1, R + 1))
         else:
